@@ -45,6 +45,9 @@ Rewrite rules (closed list, every application logged with source line):
   N8  `E.map(|p| B)` on an Option -> `match`
   N6  iterator chains `X.iter().position(|p| B)`, `X.iter().any(|p| B)` and `X.iter().filter(|p| F).map(|q| E).collect()` ->
       explicit `for` loops (definitions of the adapters for side-effect-free closures)
+  N10 (opt-in) `X.iter()|into_iter()[.zip(Y)] .map(|p| E) | .filter_map(|p| O.map(|q| E)) .collect()` -> explicit loop
+      pushing into a Vec, inserting pairs into a HashMap (when the `let` is annotated HashMap) or building `Ok(vec)`
+      (when every element is `Ok(..)`); zip becomes the stub `vx_zip` carrying Iterator::zip's contract
   A   arm focus (see //@arms)
   P   prefix focus (//@cut before=/re/): the function's statements from the anchor (a top-level
       statement) to the end are replaced by `return self.vx_rest()`, a stub with no contract
@@ -872,6 +875,144 @@ def desugar_iter_chains(text, log, relfile, line):
     raise VxError("N6: did not reach a fixpoint")
 
 
+def _strip_block(body):
+    """`{ EXPR }` -> `EXPR` when the block holds one expression and no statement"""
+    b = body.strip()
+    if b.startswith("{") and b.endswith("}"):
+        toks = code_toks(tokenize(b))
+        if toks and match_close(toks, 0) == len(toks) - 1 and not any(t.text == ";" for t in toks):
+            return b[1:-1].strip()
+    return b
+
+
+def _whole_call(expr, head):
+    """expr == `head(INNER)` with the parentheses spanning the whole expression -> INNER, else None"""
+    e = expr.strip()
+    if not e.startswith(head + "("):
+        return None
+    toks = code_toks(tokenize(e))
+    hl = len(code_toks(tokenize(head)))
+    if match_close(toks, hl) != len(toks) - 1:
+        return None
+    return e[toks[hl].end:toks[-1].start].strip()
+
+
+def _split_top_commas(inner):
+    toks = code_toks(tokenize(inner))
+    parts, d, last = [], 0, 0
+    for t in toks:
+        if t.text in ("(", "[", "{"):
+            d += 1
+        elif t.text in (")", "]", "}"):
+            d -= 1
+        elif t.text == "," and d == 0:
+            parts.append(inner[last:t.start].strip())
+            last = t.end
+    tail = inner[last:].strip()
+    if tail:
+        parts.append(tail)
+    return parts
+
+
+def desugar_collect_chains(text, log, relfile, line):
+    """Rule N10 (opt-in): `SRC ADAPT .collect()` becomes an explicit loop, where
+         SRC   = X.iter() | X.into_iter() | X.iter().zip(Y)        (zip -> `vx_zip(X, Y)`, a stub carrying Iterator::zip's contract)
+         ADAPT = .map(|p| E) | .filter_map(|p| O.map(|q| E))
+       and the collection is chosen from the syntax: a `let NAME: ..HashMap<..> = CHAIN;` collects pairs with insert
+       (later pairs overwrite earlier ones, as FromIterator for HashMap does); an element `Ok(E)` with no other
+       variant collects into `Ok(vec)`; otherwise a Vec in iteration order.  A wrong guess does not type-check -> UNDECIDED."""
+    k = 100
+    for _round in range(50):
+        toks = code_toks(tokenize(text))
+        n = len(toks)
+        cand = None
+        for i, t in enumerate(toks):
+            if not (t.kind == "ident" and t.text in ("iter", "into_iter") and i >= 2 and toks[i - 1].text == "."
+                    and i + 2 < n and toks[i + 1].text == "(" and toks[i + 2].text == ")"):
+                continue
+            j = i + 3
+            zipped = None
+            if j + 2 < n and toks[j].text == "." and toks[j + 1].text == "zip" and toks[j + 2].text == "(":
+                zc = match_close(toks, j + 2)
+                zipped = text[toks[j + 2].end:toks[zc].start].strip()
+                j = zc + 1
+            if not (j + 2 < n and toks[j].text == "." and toks[j + 1].text in ("map", "filter_map") and toks[j + 2].text == "("):
+                continue
+            kind = toks[j + 1].text
+            if toks[j + 3].text != "|":
+                continue
+            pat, body, c = _closure_parts(toks, text, j + 2)
+            if not (c + 2 < n and toks[c + 1].text == "." and toks[c + 2].text == "collect"):
+                continue
+            e = c + 3
+            if toks[e].text == "::":
+                while e < n and toks[e].text != "(":
+                    e += 1
+            if not (e + 1 < n and toks[e].text == "(" and toks[e + 1].text == ")"):
+                continue
+            rs = _recv_start(toks, i - 1)
+            cand = (rs, e + 1, i, kind, zipped, pat, body)
+            break
+        if cand is None:
+            return text
+        rs, ce, ii, kind, zipped, pat, body = cand
+        if SIDE_EFFECT_RE.search(body) or re.search(r"[^=!<>]=[^=>]", body.replace("==", "")):
+            raise VxError("N10: closure body may have side effects: %r" % body[:80])
+        recv = text[toks[rs].start:toks[ii - 1].start].strip()
+        by_iter = toks[ii].text == "iter"
+        # statement context: `let NAME: TYPE = CHAIN`
+        b0 = rs - 1
+        while b0 >= 0 and toks[b0].text not in (";", "{", "}"):
+            b0 -= 1
+        ctx = text[toks[b0].end if b0 >= 0 else 0:toks[rs].start]
+        to_map = bool(re.search(r"\blet\b[^=]*:\s*[^=]*HashMap\s*<", ctx))
+        item = "__i%d" % k
+        coll = "__c%d" % k
+        elem = _strip_block(body)
+        pre = _bind(pat, item, False)
+        opt_recv = None
+        if kind == "filter_map":
+            et = code_toks(tokenize(elem))
+            # elem must be `O.map(|q| E)`
+            m_i = None
+            for x in range(len(et) - 2):
+                if et[x].text == "." and et[x + 1].text == "map" and et[x + 2].text == "(" and match_close(et, x + 2) == len(et) - 1:
+                    m_i = x
+            if m_i is None:
+                raise VxError("N10: filter_map closure is not `opt.map(|q| E)`: %r" % elem[:80])
+            opt_recv = elem[:et[m_i].start].strip()
+            pat2, elem2, _c2 = _closure_parts(et, elem, m_i + 2)
+            elem = _strip_block(elem2)
+        ok_inner = _whole_call(elem, "Ok") if not to_map else None
+        if ok_inner is not None:
+            elem = ok_inner
+        if to_map:
+            tup = _whole_call("T" + elem, "T") if elem.startswith("(") else None
+            parts = _split_top_commas(tup) if tup is not None else []
+            if len(parts) != 2:
+                raise VxError("N10: HashMap collect needs a pair element, got %r" % elem[:80])
+            put = "%s.insert(%s, %s);" % (coll, parts[0], parts[1])
+            init = "let mut %s = HashMap::new();" % coll
+        else:
+            put = "%s.push(%s);" % (coll, elem)
+            init = "let mut %s = Vec::new();" % coll
+        if opt_recv is not None:
+            inner = "match %s { Some(%s) => { %s } None => {} }" % (opt_recv, pat2, put)
+        else:
+            inner = put
+        if zipped is not None:
+            src_it = "vx_zip(%s, %s)" % (recv, zipped)
+        else:
+            src_it = "%s.%s()" % (recv, "iter" if by_iter else "into_iter") if by_iter else recv
+        fin = ("Ok(%s)" % coll) if ok_inner is not None else coll
+        repl = "{\n%s\nfor %s in %s {\n%s\n%s\n}\n%s\n}" % (init, item, src_it, pre, inner, fin)
+        s0, e0 = toks[rs].start, toks[ce].end
+        log.append(dict(rule="N10", file=relfile, line=line, before=re.sub(r"\s+", " ", text[s0:e0])[:200], after=re.sub(r"\s+", " ", repl)[:200]))
+        text = text[:s0] + repl + text[e0:]
+        k += 1
+    raise VxError("N10: did not reach a fixpoint")
+
+
 def rule_N7(src, lo, hi, enabled):
     """E.is_some_and(|p| B) -> (match E { Some(p) => B, None => false })
        E.is_none_or(|p| B)  -> (match E { Some(p) => B, None => true })   (definitions of the std methods)"""
@@ -1161,7 +1302,7 @@ def loop_headers(body):
 # --------------------------------------------------------------------------------------
 # vspec processing
 # --------------------------------------------------------------------------------------
-ALL_RULES = ["D1", "D2", "D3", "D5", "D6", "R1", "N1", "N2", "N3", "N4", "N5", "N6", "N7", "N8", "N9"]
+ALL_RULES = ["D1", "D2", "D3", "D5", "D6", "R1", "N1", "N2", "N3", "N4", "N5", "N6", "N7", "N8", "N9", "N10"]
 KV_RE = re.compile(r'(\w+)=("([^"]*)"|\S+)')
 
 
@@ -1304,7 +1445,7 @@ class Gen:
         rel, name = kv["file"], kv["fn"]
         src = self.src(rel)
         loc = find_fn(src, name, kv.get("impl"), int(kv.get("nth", "0")))
-        enabled = set(ALL_RULES) - {"N8"}   # N8 (Option::map) is opt-in: `.map` also exists on Result/iterators
+        enabled = set(ALL_RULES) - {"N8", "N10"}   # N8 (Option::map) and N10 (collect chains) are opt-in
         maps, sigmaps, arms, cut = [], [], None, None
         requires, ensures = [], []
         loops = {}     # n -> dict(invariant=[(name,text)], decreases=[text], ensures=[])
@@ -1401,6 +1542,10 @@ class Gen:
             hi = lo + len(new_body)
         if "N6" in enabled and re.search(r"\.iter\(\)\s*\.(any|filter|position)\(", src[lo:hi]):
             new_body = desugar_iter_chains(src[lo:hi], self.log, rel, fn_line)
+            src = src[:lo] + new_body + src[hi:]
+            hi = lo + len(new_body)
+        if "N10" in enabled and re.search(r"\.collect\s*(::|\()", src[lo:hi]):
+            new_body = desugar_collect_chains(src[lo:hi], self.log, rel, fn_line)
             src = src[:lo] + new_body + src[hi:]
             hi = lo + len(new_body)
         sig = src[loc["start"]:lo]
